@@ -51,6 +51,16 @@ def gen_cases(rng, tier):
             c = tc.thr_case(rng, True)
         c["targets"] = [enc(t) for t in rng.sample(EXTREMES, 4)]
         cases.append(c)
+    # unsigned integer scores (quantised 8 / 16 bit), handed over unsorted by the shared driver
+    for _ in range({"quick": 30, "thorough": 300, "search": 100}[tier]):
+        c = tc.thr_case(rng, True)
+        n1, n2 = rng.randint(2, 7), rng.randint(2, 7)
+        c["pos"] = [enc(Fraction(v)) for v in rng.sample(range(90, 256), n1)]
+        c["neg"] = [enc(Fraction(v)) for v in rng.sample(range(0, 200), n2)]
+        c["dtype"] = rng.choice(["uint8", "uint16"])
+        c.pop("dtype_pos", None), c.pop("dtype_neg", None)
+        c["targets"] = [enc(t) for t in rng.sample(EXTREMES, 4)]
+        cases.append(c)
     # the subclass FraudScores on scores in [0, 1] that include the ends of that range exactly
     for _ in range({"quick": 40, "thorough": 400, "search": 150}[tier]):
         c = tc.thr_case(rng, True)
